@@ -1891,13 +1891,16 @@ class Data(BaseCartesianData):
             # only the result within the view is returned.
             if not isinstance(axis, tuple):
                 axis = (axis,)
-            result_slices = tuple([subarray_slices[idim] for idim in range(self.ndim) if idim not in axis])
+            # Note that subarray_slices and axis refer to the dimensions of
+            # the data once the view has been applied, and there can be fewer
+            # of these than self.ndim if the view contains integers.
+            result_slices = tuple([subarray_slices[idim] for idim in range(len(subarray_slices)) if idim not in axis])
 
             if chunk_view is None:
                 full_shape = [self.shape[idim] for idim in range(self.ndim) if idim not in axis]
             else:
                 chunk_shape = subset_state.to_mask(self, chunk_view).shape
-                full_shape = [chunk_shape[idim] for idim in range(self.ndim) if idim not in axis]
+                full_shape = [chunk_shape[idim] for idim in range(len(chunk_shape)) if idim not in axis]
 
             # Note that np.zeros(full_shape) * np.nan would be a scalar rather
             # than a 0-d array if all dimensions are collapsed
